@@ -213,14 +213,16 @@ impl Check for C07 {
                 _ => observe!(&rt, files),
             };
             // the seed itself must compile
-            if !cx.case(base | SEED_CHECK) {
-                continue;
-            }
-            let o = run(&seed.files);
-            cx.count("seeds", 1);
-            if o != Obs::Compiled {
-                cx.count("seed_rejected", 1);
-                cx.note(format!("seed {} does not compile: {o:?}\n{}", seed.name, show_files(&seed.files)));
+            if cx.case(base | SEED_CHECK) {
+                let o = run(&seed.files);
+                cx.count("seeds", 1);
+                if o != Obs::Compiled {
+                    cx.count("seed_rejected", 1);
+                    cx.note(format!("seed {} does not compile: {o:?}\n{}", seed.name, show_files(&seed.files)));
+                    continue;
+                }
+            } else if cx.only().is_none() {
+                // compiling the seed killed an earlier worker (reported by the parent)
                 continue;
             }
             let mut kinds_seen = std::collections::HashSet::new();
@@ -278,7 +280,8 @@ impl Check for C07 {
                         );
                     }
                 }
-                if ei == 0 && si == 0 {
+                // one literal case per unit: the middle edit of its first seed
+                if ei == prep.edits.len() / 2 && si == 0 {
                     cx.sample(json!({"seed": seed.name, "edit_kind": e.kind, "edit": e.detail, "program": show_files(&mutant),
                         "observed": format!("{o:?}")}));
                 }
